@@ -39,6 +39,8 @@ def population(tier, seed):
         g["id"] = "c%04d" % i
         if rng.random() < 0.25:
             g = core.add_recovery(g, rng)
+        if rng.random() < 0.3:
+            g = core.add_markers(g, rng)
         pop.append(core.annotate(g, rng))
     return pop
 
@@ -310,7 +312,8 @@ def run_batch(cgs, tier, seed, keep_dir=None, variants_fn=None, owner=None, debu
                 dis.append({"prop": owner(cg, prop) if owner else prop, "kind": k, "backend": backend, "algo": algo,
                             "gid": gid, "start": start,
                             "input": rec["input"], "err_at": rec["res"].get("at"), "detail": detail[:600],
-                            "facts": _facts(prop, k, rec, oc), "cg": cg, "suffixed": suffixed, "raw_input": inp})
+                            "facts": _facts(prop, k, rec, oc) + _inline_facts(cg, rec, oc), "cg": cg,
+                            "suffixed": suffixed, "raw_input": inp})
             if not recovery:
                 pair.setdefault((cid, algo, tuple(inp), rec0["res"].get("at")), {})[backend] = (oc, rec0)
         for (cid, algo, inp, at), d in pair.items():
@@ -395,6 +398,24 @@ def _facts(prop, kind, rec, oc, oc2=None):
             diff = [(e, g) for e, g in zip(exp, got) if e != g]
             if diff and all(g == 0 and isinstance(e, int) and e >= 10 for e, g in diff):
                 f.append("got_default_location=yes")
+    return f
+
+
+def _inline_facts(cg, rec, oc):
+    """two (or more) inlined nonterminals whose alternatives run user code occur in one alternative, and
+    the real action log is a permutation of the expected one"""
+    inl = set(cg.get("inline", []))
+    if not inl:
+        return []
+    coded = {p["lhs"] for p in cg["prods"] if p["lhs"] in inl and p["form"] in ("user", "usera", "useru", "fallible")}
+    if not any(sum(1 for x in p["rhs"] if x in coded) >= 2 for p in cg["prods"]):
+        return []
+    f = ["inline_pair_in_one_alt=yes"]
+    try:
+        if sorted(e[0] for e in rec["events"]) == sorted(e[0] for e in oc["events"]):
+            f.append("events_permuted=yes")
+    except Exception:
+        pass
     return f
 
 
